@@ -523,6 +523,14 @@ pub fn mutants(base: &ExecDoc, sch: &Sch) -> Vec<(&'static str, String, ExecDoc)
             if let Ty::NonNull(inner) = &orig {
                 alts.push(("nullable-without-default", (**inner).clone(), true));
             }
+            // a non-list variable where a list is expected: input coercion of single values applies to
+            // literals only, never to variables
+            if let Ty::List(_, item) = orig.nullable() {
+                alts.push(("list-item-type-for-list", (**item).clone(), true));
+                if !item.is_nonnull() {
+                    alts.push(("non-null-list-item-type-for-list", Ty::nn((**item).clone()), true));
+                }
+            }
             for (tag, ty, drop_default) in alts {
                 let mut d = base.clone();
                 if let ExecDef::Op { vars: Some((_, v)), .. } = &mut d.defs[first_op] {
@@ -561,6 +569,12 @@ pub fn mutants(base: &ExecDoc, sch: &Sch) -> Vec<(&'static str, String, ExecDoc)
                 add(rule, vec![(tag.to_string(), d)]);
             }
         }
+    }
+    // ---- a second operation that reaches the same fragments but defines none of the variables they use
+    if let ExecDef::Op { kind, vars: Some(_), sel, .. } = &base.defs[first_op] {
+        let mut d = base.clone();
+        d.defs.insert(first_op + 1, ExecDef::Op { p: p0(), kind: *kind, name: Some(nm("Second")), vars: None, dirs: vec![], sel: sel.clone() });
+        add("var.defined", vec![("second-operation-without-the-variables".into(), d)]);
     }
     // ---- operation-level directives
     for (rule, tag, ds) in [
@@ -860,7 +874,18 @@ pub fn run03(args: &RunArgs) -> i32 {
     let shared = Shared { valid_docs: Mutex::new(vec![]) };
     let (dev, budget) = if args.quick() { (2, 30) } else { (3, 600) };
     let gen_stats = run_c04(args, &rep, Some(&shared), dev, budget);
-    let bases = std::mem::take(&mut *shared.valid_docs.lock().unwrap());
+    let mut bases = std::mem::take(&mut *shared.valid_docs.lock().unwrap());
+    // plus the variable-definition matrix (a variable at every kind of argument location, every
+    // default form): E1 reaches those shapes only at higher deviation levels
+    let e1_bases = bases.len();
+    for t in crate::c12::var_matrix_docs() {
+        if let Ok(d) = parse_exec(&t)
+            && valid_op::validate(&sch, &d).is_empty()
+        {
+            bases.push(d);
+        }
+    }
+    let matrix_bases = bases.len() - e1_bases;
     let total = AtomicU64::new(0);
     let confirmed = AtomicU64::new(0);
     let per_rule: Mutex<BTreeMap<String, u64>> = Mutex::new(BTreeMap::new());
@@ -941,6 +966,7 @@ pub fn run03(args: &RunArgs) -> i32 {
         "rule": "every labelled single-fault mutation at every applicable site of every valid base document (E1, distinct by text); non-trivial = the reference validator confirms the fault for that rule, so a diagnostic of that rule is demanded",
         "exhaustive": true,
         "base_documents": bases.len(),
+        "base_documents_from_variable_matrix": matrix_bases,
         "base_generation": gen_stats,
         "mutants": n,
         "confirmed": confirmed.load(Ordering::Relaxed),
